@@ -436,6 +436,33 @@ func TestC06_Mutants(t *testing.T) {
 	})
 }
 
+// TestC06_KeyGrid runs the key decoder and every follow-up operation over the
+// complete COSE_Key grid of C15 (kty x crv x alg x key_ops x lengths of x, y, d).
+func TestC06_KeyGrid(t *testing.T) {
+	begin(t, "C06", "keygrid")
+	sh, nsh := gridShard()
+	accepted := 0
+	cnt := forEachKeyGridCell(sh, nsh, func(cell string, wire []byte) {
+		stats.Eval()
+		var key cose.Key
+		var kerr error
+		c := mutCase{SeedKind: -2, Wire: wire, Muts: []gen.Mutation{{Op: "key-grid", Path: cell}}}
+		judge(t, "c06", c, func(c mutCase) error {
+			if err := guard("Key decoder", c.Wire, func() { kerr = key.UnmarshalCBOR(append([]byte{}, c.Wire...)) }); err != nil {
+				return err
+			}
+			if kerr != nil {
+				return nil
+			}
+			accepted++
+			stats.NTBytes(c.Wire)
+			stats.Class("decoded/Key-grid")
+			return keyFollowUps(&key, c.Wire)
+		})
+	})
+	stats.ExhaustivePart("COSE_Key grid cells (decoder + follow-ups)", cnt/nsh)
+}
+
 // FuzzC06 is the native coverage-guided target for all nine entry points.
 func FuzzC06(f *testing.F) {
 	cur = propCtx{Property: "C06", Part: "fuzz"}
